@@ -5,7 +5,8 @@ import random
 from vlib import coqrun
 from vlib.common import COQ
 
-STATIC = ["C14S/PyList.v", "C14S/StackSpec.v", "C14S/StackSpecProofs.v", "C14S/Spill.v", "C14S/SpillProofs.v", "C14S/Script.v"]
+STATIC = ["C14S/PyList.v", "C14S/StackSpec.v", "C14S/StackSpecProofs.v", "C14S/Spill.v", "C14S/SpillProofs.v", "C14S/SpillInv.v",
+          "C14S/ReorderProofs.v", "C14S/Script.v"]
 PER_RUN = ["C14S/GenStackModel.v", "C14S/TieStackModel.v", "C14S/PropsStack.v"]
 IMPORTS = "From Verif Require Import Base.PyInt C14S.PyList C14S.StackSpec C14S.Spill C14S.Script.\n"
 NEXT0 = 4096
@@ -114,8 +115,55 @@ class Real:
         self.asm, self.spilled, self.costs = [], {}, []
         self.failed = None
         self.n = 0
+        self.classes = classes
+        self.oracle_bad = []     # requested stack effect not achieved / valid command raised
+
+    def _rep(self, x):
+        return self.classes.get(x, x)
 
     def apply(self, c):
+        """apply + the property's own oracle: swap(d) exchanges top and depth d, dup(d) copies depth d to the top,
+        reorder(ops) leaves ops as the top |ops| items (up to DFG equivalence) and keeps the multiset of everything
+        else; a command with valid arguments does not raise."""
+        before = self.stack_ids()
+        sp_before = [self.ids.id_of(o) for o in self.spilled]
+        h = len(before)
+        ok = self._apply(c)
+        k = c[0]
+        valid = None
+        want = None
+        if k == "swap":
+            valid = -h < c[1] <= 0 and h >= 1
+            if valid:
+                want = list(before)
+                want[-1], want[c[1] - 1] = want[c[1] - 1], want[-1]
+        elif k == "dup":
+            valid = -h < c[1] <= 0
+            if valid:
+                want = before + [before[c[1] - 1]]
+        elif k == "reorder" and not c[1]:
+            ops = c[2]
+            valid = len(set(ops)) == len(ops) and all(o in before or o in sp_before for o in ops) and len(ops) > 0
+        if valid and not ok:
+            self.oracle_bad.append({"command": [str(x) for x in c], "stack_before": before, "problem": f"valid command raised (error class {self.failed[2]})"})
+        elif valid and ok:
+            after = self.stack_ids()
+            if want is not None and after != want:
+                self.oracle_bad.append({"command": [str(x) for x in c], "stack_before": before, "stack_after": after, "expected": want})
+            if k == "reorder":
+                ops = c[2]
+                top = after[-len(ops):]
+                sp_after = [self.ids.id_of(o) for o in self.spilled]
+                avail = {self._rep(x) for x in after + sp_after}
+                # (an operand may be spilled while another copy of it is already spilled, so only availability --
+                #  not multiplicity -- of the untouched operands is required)
+                if [self._rep(x) for x in top] != [self._rep(x) for x in ops] or \
+                        any(self._rep(x) not in avail for x in before + sp_before):
+                    self.oracle_bad.append({"command": [str(x) for x in c], "stack_before": before, "stack_after": after,
+                                            "problem": "top items are not the target list / other items not preserved"})
+        return ok
+
+    def _apply(self, c):
         from vyper.utils import OrderedSet
         ids, sp, vc, stack, asm, spilled = self.ids, self.sp, self.vc, self.stack, self.asm, self.spilled
         try:
@@ -386,6 +434,7 @@ def corpus_checks(ctx, tier):
     from vyper.compiler.phases import CompilerData
     from vyper.compiler.settings import anchor_settings
     from vlib import c14s_corpus as C
+    from vlib import c14s_tv as TV
     from vlib import configs
     from vlib.evm import Chain
 
@@ -394,7 +443,8 @@ def corpus_checks(ctx, tier):
     cfgs = [c for c in configs.configs(tier) if c.venom]
     if tier != "quick":
         cfgs = cfgs[::6]
-    stats = {"compiles": 0, "swap_dup_tokens": 0, "max_index": 0, "join_blocks": 0, "spill_stores": 0, "calls": 0}
+    stats = {"compiles": 0, "swap_dup_tokens": 0, "max_index": 0, "join_blocks": 0, "spill_stores": 0, "calls": 0,
+             "instructions_validated": 0, "instructions_skipped": 0}
     fails = []
     for k in range(ncontracts):
         src = C.gen_contract(rnd)
@@ -411,7 +461,7 @@ def corpus_checks(ctx, tier):
             ctx.log(f"legacy reference failed: {type(e).__name__}: {e}")
         for cfg in cfgs:
             try:
-                with C.EdgeRecorder() as rec:
+                with C.EdgeRecorder() as rec, TV.InstRecorder() as tv:
                     cd = CompilerData(src, settings=cfg.settings())
                     with anchor_settings(cd.settings):
                         asm = cd.assembly_runtime
@@ -422,6 +472,11 @@ def corpus_checks(ctx, tier):
                               {"config": cfg.name, "source": src, "error": f"{type(e).__name__}: {e}", "trace": traceback.format_exc()[-1500:]}))
                 continue
             stats["compiles"] += 1
+            stats["instructions_validated"] += tv.n_ok
+            stats["instructions_skipped"] += tv.n_skip
+            if tv.fail:
+                fails.append(("failing-input", f"emitted stack manipulation does not match the instruction's operands / the stack map under {cfg.name}: "
+                              + tv.fail[0]["instruction"][:80], {"config": cfg.name, "source": src, "failures": tv.fail[:3]}))
             toks = [t for t in asm if isinstance(t, str) and re.match(r"^(SWAP|DUP)\d+$", t)]
             stats["swap_dup_tokens"] += len(toks)
             idx = [int(re.sub(r"\D", "", t)) for t in toks]
@@ -449,6 +504,70 @@ def corpus_checks(ctx, tier):
                             break
                 except Exception as e:  # noqa
                     fails.append(("correspondence-broken", f"cannot execute corpus contract under {cfg.name}: {e}", {"config": cfg.name}))
+    # other program shapes (external calls, ABI decoding, storage): instruction-level validation + join agreement only
+    try:
+        from vlib import c12_lib
+        extra = [("c12 caller", c12_lib.caller_source()[0])]
+    except Exception:  # noqa
+        extra = []
+    for name, src in extra:
+        for cfg in cfgs[:2] if tier == "quick" else cfgs[:6]:
+            try:
+                with C.EdgeRecorder() as rec, TV.InstRecorder() as tv:
+                    cd = CompilerData(src, settings=cfg.settings())
+                    with anchor_settings(cd.settings):
+                        cd.assembly_runtime
+            except Exception as e:
+                fails.append(("failing-input", f"venom back end crashes on {name} under {cfg.name}: {type(e).__name__}: {e}"[:300],
+                              {"config": cfg.name, "source": src}))
+                continue
+            stats["compiles"] += 1
+            stats["instructions_validated"] += tv.n_ok
+            stats["instructions_skipped"] += tv.n_skip
+            n, bad = C.join_disagreements(rec.records)
+            stats["join_blocks"] += n
+            if tv.fail:
+                fails.append(("failing-input", f"emitted stack manipulation does not match the instruction's operands / the stack map ({name}, {cfg.name}): "
+                              + tv.fail[0]["instruction"][:80], {"config": cfg.name, "source": src, "failures": tv.fail[:3]}))
+            if bad:
+                fails.append(("failing-input", f"stack layouts of the predecessors of a join block disagree ({name}, {cfg.name}): {bad[0]['what']}",
+                              {"config": cfg.name, "source": src, "disagreements": bad[:3]}))
+    # fixed programs with historically problematic shapes: all checks + results equal the legacy pipeline
+    for src, calls in C.FIXED:
+        rout = configs.compile_src(src, configs.Config(False, "gas", "cancun"), formats=("bytecode", "method_identifiers"))
+        chr_ = Chain("cancun")
+        raddr = chr_.deploy(bytes.fromhex(rout["bytecode"][2:]))
+        mk = lambda sig, args: int(rout["method_identifiers"][sig], 16).to_bytes(4, "big") + b"".join(a.to_bytes(32, "big") for a in args)  # noqa
+        ref = [chr_.call(raddr, mk(sig, args)) for sig, args in calls]
+        for cfg in cfgs:
+            try:
+                with C.EdgeRecorder() as rec, TV.InstRecorder() as tv:
+                    cd = CompilerData(src, settings=cfg.settings())
+                    with anchor_settings(cd.settings):
+                        cd.assembly_runtime
+                        code = cd.bytecode
+            except Exception as e:
+                fails.append(("failing-input", f"venom back end crashes under {cfg.name}: {type(e).__name__}: {e}"[:300], {"config": cfg.name, "source": src}))
+                continue
+            stats["compiles"] += 1
+            stats["instructions_validated"] += tv.n_ok
+            n, bad = C.join_disagreements(rec.records)
+            stats["join_blocks"] += n
+            if tv.fail:
+                fails.append(("failing-input", f"emitted stack manipulation does not match the stack map under {cfg.name}: " + tv.fail[0]["instruction"][:80],
+                              {"config": cfg.name, "source": src, "failures": tv.fail[:3]}))
+            if bad:
+                fails.append(("failing-input", f"stack layouts of the predecessors of a join block disagree under {cfg.name}: {bad[0]['what']}",
+                              {"config": cfg.name, "source": src, "disagreements": bad[:3]}))
+            ch2 = Chain(cfg.evm)
+            addr = ch2.deploy(code)
+            for (sig, args), r0 in zip(calls, ref):
+                r = ch2.call(addr, mk(sig, args))
+                stats["calls"] += 1
+                if (r.ok, r.out) != (r0.ok, r0.out):
+                    fails.append(("failing-input", f"{sig}{args} returns a different result under {cfg.name} than under legacy-gas-cancun",
+                                  {"config": cfg.name, "source": src, "call": f"{sig} {args}", "legacy": [r0.ok, r0.out.hex()], "venom": [r.ok, r.out.hex()]}))
+                    break
     return stats, fails
 
 
@@ -485,6 +604,12 @@ def part_stack(ctx) -> int:
     scen, stats, bad = spill_differential(ctx, 400 if quick else 3000)
     total += stats["cmds"]
     ctx.corr["spill_scenarios"] = stats
+    oracle_bad = [dict(x, initial_stack=m0, classes=dict(classes), commands=[list(map(str, c)) for c in cmds])
+                  for ids, m0, classes, cmds, real in scen for x in real.oracle_bad]
+    for x in oracle_bad[:3]:
+        found = True
+        ctx.violation("failing-input", "StackSpiller / _stack_reorder does not perform the requested stack operation: "
+                      + str(x.get("problem", "wrong stack effect")), x, key="c14s:effect:" + str(x.get("command"))[:80])
     n_evm, bad_evm = evm_execution(ctx, scen)
     total += n_evm
     ctx.corr["evm_executions"] = n_evm
@@ -492,7 +617,7 @@ def part_stack(ctx) -> int:
         found = True
         ctx.violation("failing-input", "the assembly emitted by the spiller / _stack_reorder does not realise the stack map on the EVM", x,
                       key="c14s:evm:" + str(x.get("commands"))[:80])
-    if not bad_evm:
+    if not bad_evm and not oracle_bad:
         for x in bad[:3]:
             ctx.violation("correspondence-broken", "Spill.v model disagrees with StackSpiller/_stack_reorder (exact output)", x)
     # (4) corpus
